@@ -5,19 +5,131 @@ from collections import deque
 from facts import callee_of, op_local, op_const_val
 
 
-def pruned_blocks(fn, prune):
-    """blocks of fn reachable when bool parameters take the constant values in `prune` {param local: bool}"""
+def pruned_blocks(fn, prune, facts=None):
+    """blocks of fn reachable when parameters take the constant values in `prune` {param local: bool | ('v', variant index)}.
+    Locals that are assigned one and the same constant on every reachable definition (including the result of a crate-local pure function
+    applied to constants, e.g. `mode.should_create()` with `mode == OpenMode::Get`) are propagated too (fixpoint)."""
     if not prune:
         return fn.reachable_blocks()
-    seen = {0}
-    dq = deque([0])
-    while dq:
-        bb = dq.popleft()
-        for s in _succ(fn, bb, prune):
-            if s not in seen:
-                seen.add(s)
-                dq.append(s)
+    consts = {}
+    seen = None
+    for _ in range(8):
+        seen = {0}
+        dq = deque([0])
+        while dq:
+            bb = dq.popleft()
+            for s in _succ(fn, bb, prune, consts):
+                if s not in seen:
+                    seen.add(s)
+                    dq.append(s)
+        new = _local_consts(fn, seen, prune, facts)
+        if new == consts:
+            break
+        consts = new
     return seen
+
+
+def _const_of_operand(fn, o, prune, consts):
+    v = op_const_val(o)
+    if v is not None and isinstance(v, int) and o['k'] == 'const' and o['c'].get('ty') == 'bool':
+        return bool(v)
+    l = op_local(o)
+    if l is None or o['p']['pr']:
+        return None
+    if l in prune:
+        return prune[l]
+    return consts.get(l)
+
+
+def _local_consts(fn, live, prune, facts, depth=0):
+    """{local: constant} for locals whose every definition inside `live` assigns the same constant"""
+    cand = {}
+    bad = set()
+    known = {}
+    for _ in range(3):        # copies of constants of constants
+        cand, bad = {}, set()
+        for bb in live:
+            b = fn.blocks[bb]
+            for s in b['stmts']:
+                if s['k'] != 'assign':
+                    continue
+                l = s['p']['l']
+                if s['p']['pr']:
+                    bad.add(l)
+                    continue
+                rv = s['rv']
+                v = None
+                if rv['k'] == 'use':
+                    v = _const_of_operand(fn, rv['op'], prune, known)
+                elif rv['k'] == 'agg' and rv.get('ak') == 'adt' and not rv.get('ops') and rv.get('vi') is not None:
+                    v = ('v', rv['vi'])
+                elif rv['k'] == 'un' and rv['op'] == 'Not':
+                    x = _const_of_operand(fn, rv['a'], prune, known)
+                    v = (not x) if isinstance(x, bool) else None
+                if v is None:
+                    bad.add(l)
+                else:
+                    cand.setdefault(l, set()).add(v)
+            t = b['term']
+            if t['k'] == 'call' and not t['dest']['pr']:
+                l = t['dest']['l']
+                v = None
+                if facts is not None and depth < 3:
+                    c = callee_of(t)
+                    g = None
+                    if c:
+                        r = c.get('resolved')
+                        if r and r['local']:
+                            g = facts.by_path.get(r['path'])
+                        if g is None and c['local']:
+                            g = facts.by_path.get(c['path'])
+                    if g is not None and g.kind != 'Closure' and g.argc == len(t['args']) and g.argc <= 2 and len(g.blocks) <= 40:
+                        argv = [_const_of_operand(fn, a, prune, known) for a in t['args']]
+                        if argv and all(x is not None for x in argv):
+                            v = _eval_const_fn(facts, g, {i + 1: x for i, x in enumerate(argv)}, depth + 1)
+                if v is None:
+                    bad.add(l)
+                else:
+                    cand.setdefault(l, set()).add(v)
+            elif t['k'] == 'call':
+                bad.add(t['dest']['l'])
+        new = {l: next(iter(vs)) for l, vs in cand.items() if l not in bad and len(vs) == 1 and not (1 <= l <= fn.argc)}
+        if new == known:
+            break
+        known = new
+    return known
+
+
+_EVAL_MEMO = {}
+
+
+def _eval_const_fn(facts, g, prune, depth):
+    """the constant a small crate-local function returns for constant arguments, or None"""
+    key = (id(facts), g.path, tuple(sorted((k, v) for k, v in prune.items())))
+    if key in _EVAL_MEMO:
+        return _EVAL_MEMO[key]
+    _EVAL_MEMO[key] = None
+    live = pruned_blocks(g, prune, facts if depth < 3 else None)
+    consts = _local_consts(g, live, prune, facts, depth)
+    vals = set()
+    okk = True
+    for bb in live:
+        b = g.blocks[bb]
+        for s in b['stmts']:
+            if s['k'] == 'assign' and s['p']['l'] == 0:
+                v = None
+                if not s['p']['pr'] and s['rv']['k'] == 'use':
+                    v = _const_of_operand(g, s['rv']['op'], prune, consts)
+                if v is None:
+                    okk = False
+                else:
+                    vals.add(v)
+        t = b['term']
+        if t['k'] == 'call' and t['dest']['l'] == 0:
+            okk = False
+    out = next(iter(vals)) if okk and len(vals) == 1 else None
+    _EVAL_MEMO[key] = out
+    return out
 
 
 def _whole_defs(fn):
@@ -85,26 +197,71 @@ def _param_source(fn, bb, l):
     return None, False
 
 
-def _succ(fn, bb, prune):
+def _succ(fn, bb, prune, consts=None):
     t = fn.term(bb)
     if t['k'] == 'switch' and prune:
         dl = op_local(t['discr'])
         if dl is not None and not t['discr']['p']['pr']:
+            tg = dict((v, b) for v, b in t['targets'])
             p, inv = _param_source(fn, bb, dl)
-            if p in prune:
+            if p in prune and isinstance(prune[p], bool):
                 val = bool(prune[p]) != inv
-                tg = dict((v, b) for v, b in t['targets'])
                 nxt = tg.get(1 if val else 0, t['otherwise'])
                 return [nxt] if not fn.blocks[nxt]['cleanup'] else []
+            if consts:
+                # a local with a known constant (possibly negated / copied)
+                l, inv2 = dl, False
+                defs = _whole_defs(fn)
+                for _ in range(8):
+                    if l in consts:
+                        break
+                    ds = defs.get(l, [])
+                    if len(ds) != 1 or ds[0] is None:
+                        break
+                    rv = ds[0]
+                    if rv['k'] == 'use' and op_local(rv['op']) is not None and not rv['op']['p']['pr']:
+                        l = op_local(rv['op'])
+                    elif rv['k'] == 'un' and rv['op'] == 'Not' and op_local(rv['a']) is not None and not rv['a']['p']['pr']:
+                        l = op_local(rv['a'])
+                        inv2 = not inv2
+                    else:
+                        break
+                if l in consts and isinstance(consts[l], bool):
+                    val = consts[l] != inv2
+                    nxt = tg.get(1 if val else 0, t['otherwise'])
+                    return [nxt] if not fn.blocks[nxt]['cleanup'] else []
+            # a switch on the discriminant of a value whose variant is known
+            for s in fn.blocks[bb]['stmts']:
+                if s['k'] == 'assign' and s['p']['l'] == dl and not s['p']['pr'] and s['rv']['k'] == 'discr' and not [e for e in s['rv']['p']['pr'] if e['k'] != 'deref']:
+                    src = s['rv']['p']['l']
+                    v = prune.get(src) if src in prune else (consts or {}).get(src)
+                    if v is None:
+                        ps, _inv = param_source(fn, src)
+                        v = prune.get(ps) if ps is not None else None
+                    if isinstance(v, tuple) and v[0] == 'v':
+                        nxt = tg.get(v[1], t['otherwise'])
+                        return [nxt] if not fn.blocks[nxt]['cleanup'] else []
     return fn.succ(bb)
 
 
-def const_args(fn_callee, term):
+def const_args(fn_callee, term, caller=None):
+    """{param index: constant} for the arguments of a call that are literal bools, or (when the caller is given) unit-like enum values built right at the call"""
     out = {}
     for i, a in enumerate(term['args']):
+        if i + 1 > fn_callee.argc:
+            continue
         v = op_const_val(a)
-        if v is not None and i + 1 <= fn_callee.argc and fn_callee.locals[i + 1]['ty'] == 'bool':
+        if v is not None and fn_callee.locals[i + 1]['ty'] == 'bool':
             out[i + 1] = bool(v)
+            continue
+        if caller is not None and a['k'] in ('move', 'copy') and not a['p']['pr']:
+            ds = _whole_defs(caller).get(a['p']['l'], [])
+            if len(ds) == 1 and ds[0] is not None:
+                rv = ds[0]
+                if rv['k'] == 'agg' and rv.get('ak') == 'adt' and not rv.get('ops') and rv.get('vi') is not None:
+                    out[i + 1] = ('v', rv['vi'])
+                elif rv['k'] == 'use' and rv['op']['k'] == 'const' and fn_callee.locals[i + 1]['ty'] == 'bool' and rv['op']['c'].get('val') is not None:
+                    out[i + 1] = bool(rv['op']['c']['val'])
     return out
 
 
@@ -122,7 +279,7 @@ def reach_specialised(facts, start_fn, start_blocks=None, start_prune=None, live
         seen.add(key)
         fns.add(fn)
         prune = dict(pr)
-        live = pruned_blocks(fn, prune)
+        live = pruned_blocks(fn, prune, facts)
         if blocks is not None:
             live = live & set(blocks)
         if live_out is not None:
@@ -139,7 +296,7 @@ def reach_specialised(facts, start_fn, start_blocks=None, start_prune=None, live
                     if target is None and c['local']:
                         target = facts.by_path.get(c['path'])
                 if target is not None:
-                    todo.append((target, frozenset(const_args(target, t).items()), None))
+                    todo.append((target, frozenset(const_args(target, t, fn).items()), None))
         for g in _fn_refs_in(facts, fn, live):
             todo.append((g, frozenset(), None))
     return fns
